@@ -41,6 +41,10 @@ TOp == /\ IsEv("op")
                 ELSE IF ~ok THEN PrintT(<<"BAD", l, "undecodable", {}>>)
                 ELSE IF d # {} THEN PrintT(<<"BAD", l, "view", d>>)
                 ELSE TRUE
+             \* observation only (the hat flag is not part of the statement): not a verdict
+             /\ IF ver >= 769 /\ \E i \in AllIds : cv2[i].present /\ ViewOf(Rec.view)[i].present
+                                                   /\ cv2[i].hat # ViewOf(Rec.view)[i].hat
+                  THEN PrintT(<<"HAT", l>>) ELSE TRUE
        /\ UNCHANGED <<ver, pv, h>>
 
 TNext == TReset \/ TOp
